@@ -502,6 +502,18 @@ func genDigest(rng *hk.Rand) *progSpec {
 		for i := rng.Intn(2); i > 0; i-- {
 			at.Req = append(at.Req, genMw(rng, tg, 8))
 		}
+		if rng.Chance(35) { // client-level digest x download target (x re-send failing in the transport)
+			p.Save, p.AutoRead = true, 0
+			p.SaveKind = hk.Pick(rng, []string{"", "closer", "file"})
+			if rng.Chance(40) {
+				d.Resend = &toutSpec{Fail: tg.next()}
+				for i := range at.Cli {
+					if at.Cli[i].Digest {
+						at.Cli[i].Resend = d.Resend
+					}
+				}
+			}
+		}
 	} else {
 		at.Req = ms
 		for i := rng.Intn(2); i > 0; i-- {
